@@ -617,6 +617,7 @@ def run_roundtrip_check(ck, fmt, pr, gen):
     bq = {}
     wq = {}         # writer correspondence: query id -> (case, label, text written by the library)
     mq = {}         # the same for MPS files
+    tq = {}         # statement of C08_lp_roundtrip evaluated by the extracted code on the generated problem
     e = "lp" if fmt == "LP" else "mps"
     for cid, P in probs.items():
         toks = outs.get(cid)
@@ -699,6 +700,9 @@ def run_roundtrip_check(ck, fmt, pr, gen):
                 Ar["objname"], Ar["intmarker"] = ren.get(on, on), A["intmarker"]
                 wq["%s.w%d" % (cid, j)] = (cid, lab, text)
                 q.append("Q %s.w%d lpwrite\n%s" % (cid, j, slp_block(Ar)))
+                if fmt == "LP" and j == 0:
+                    tq["%s.t" % cid] = cid
+                    q.append("Q %s.t lprt\n%s" % (cid, slp_block(Ar)))
         for j, (C, text, lab) in enumerate(mpw):
             if len(text) < 400000 and C["name"] is not None:
                 on = C["objname"] if C["objname"] is not None else lp_objname(dict(objname=None, rows=[(r[0],) for r in C["rows"]]))
@@ -773,6 +777,24 @@ def run_roundtrip_check(ck, fmt, pr, gen):
                 fails.append((cid, "the LP text written differs from the writer model (line %d: %r vs model %r)" % (
                     d + 1, (tl[d] if d < len(tl) else b"")[:120], (ml[d] if d < len(ml) else b"")[:120]), {"LP"}, info[cid]["texts"]))
             corr_bad.append(msg)
+    if tq:
+        nwf, nok, nrt = 0, 0, 0
+        for k2, cid in tq.items():
+            a = ans.get(k2)
+            if not a or len(a) < 3:
+                corr_bad.append("lprt query %s: %s" % (k2, a))
+                continue
+            nrt += 1
+            if a[0] == "1":
+                nwf += 1
+                if a[1] == "OK" and a[2] == "true":
+                    nok += 1
+                else:
+                    corr_bad.append("theorem C08_lp_roundtrip contradicted by the extracted code on case %s: wf_lpb holds, read_lp (write_lp P) -> %s" % (cid, a[1:]))
+        ck.cov["theorem_instances"] = dict(problems=nrt, precondition_wf_lp_holds=nwf, of_those_model_roundtrip_ok=nok,
+                                           note="wf_lpb (proved sound for wf_lp) evaluated on the dumped problem after the announced renames; for these problems "
+                                                "C08_lp_roundtrip applies, and together with the two correspondences (writer bytes here, reader outcomes in C10) "
+                                                "it predicts the round trip observed")
     nm_ = 0
     for k2, (cid, lab, text) in mq.items():
         a = ans.get(k2)
